@@ -154,6 +154,38 @@ pub fn eval(ctx: &mut Ctx, op: &str, args: &[Sexp]) -> Option<String> {
                     if !set.contains(&o) {
                         ctx.oracle_fail("the set of used types does not contain the schema itself".into());
                     }
+                    // independent walk: the schema itself and every schema nested anywhere inside it, nothing else
+                    fn data<'a>(d: &'a postcard_schema::schema::owned::OwnedData, acc: &mut Vec<&'a O>) {
+                        use postcard_schema::schema::owned::OwnedData as D;
+                        match d {
+                            D::Unit => {}
+                            D::Newtype(t) => sub(t, acc),
+                            D::Tuple(ts) => ts.iter().for_each(|t| sub(t, acc)),
+                            D::Struct(fs) => fs.iter().for_each(|f| sub(&f.ty, acc)),
+                        }
+                    }
+                    fn sub<'a>(s: &'a O, acc: &mut Vec<&'a O>) {
+                        acc.push(s);
+                        match s {
+                            O::Option(t) | O::Seq(t) => sub(t, acc),
+                            O::Tuple(ts) => ts.iter().for_each(|t| sub(t, acc)),
+                            O::Map { key, val } => {
+                                sub(key, acc);
+                                sub(val, acc);
+                            }
+                            O::Struct { data: d, .. } => data(d, acc),
+                            O::Enum { variants, .. } => variants.iter().for_each(|v| data(&v.data, acc)),
+                            _ => {}
+                        }
+                    }
+                    let mut want = Vec::new();
+                    sub(&o, &mut want);
+                    if want.iter().any(|x| !set.contains(*x)) {
+                        ctx.oracle_fail("a schema nested inside the given one is missing from all_used_types()".into());
+                    }
+                    if set.iter().any(|x| !want.contains(&x)) {
+                        ctx.oracle_fail("all_used_types() contains something that is not nested in the schema".into());
+                    }
                     let mut v: Vec<String> = set.iter().map(show).collect();
                     v.sort();
                     let mut s = String::from("ok");
